@@ -89,7 +89,7 @@ func cases(run *vf.Run) ([]json.RawMessage, error) {
 		cfg.PageSize = hist.PageSizes[(i*3+i/8)%len(hist.PageSizes)]
 		sc := classes[i%len(classes)]
 		sc.Target = targets[(i/len(classes))%len(targets)]
-		s := spec{Seed: vf.SubSeed(run.Seed, "C05-case", i), Ops: 60 + rng.Intn(40), Cfg: cfg, Sched: sc, MetaLoss: i%5 == 4}
+		s := spec{Seed: vf.SubSeed(run.Seed, "C05-case", i), Ops: 60 + rng.Intn(40), Cfg: cfg, Sched: sc, MetaLoss: i%5 == 4 || i%5 == 2}
 		out = append(out, vf.Spec(s))
 	}
 	return out, nil
@@ -728,6 +728,29 @@ func runCase(run *vf.Run, raw json.RawMessage, dir string) *vf.Result {
 			op = fmt.Sprintf("close-reopen%d", how)
 			if !closeAndReopen(fmt.Sprintf("op%d", i), how) {
 				return res
+			}
+		case r < 33 && s.MetaLoss:
+			// what auto-recovery does at run time: the local LTX state is dropped while
+			// the process keeps running; the very next sync has to re-establish the
+			// baseline from the replica through the (faulty) store
+			op = "reset-local-state"
+			maxL0, maxDerived := 0, 0
+			for _, f := range e.ReplicaFiles() {
+				if f.Level == 0 && f.Max > maxL0 {
+					maxL0 = f.Max
+				}
+				if f.Level >= 1 && f.Max > maxDerived {
+					maxDerived = f.Max
+				}
+			}
+			if maxDerived > maxL0 {
+				txidRestart = true
+				e.Logf("note: at this loss of the local LTX state the replica holds %v: level>=1 reaches TXID %d, level 0 only %d", e.ReplicaFiles(), maxDerived, maxL0)
+			}
+			err := e.LS.ResetLocalState(ctx)
+			e.Logf("ResetLocalState err=%v", err)
+			if err == nil {
+				res.Count("reset_local_state_at_run_time", 1)
 			}
 		default:
 			op = "ack"
